@@ -24,7 +24,10 @@ REG = {
         "rule": _RULE + "; 70% of the cases carry one injected fault, 10% two (24 categories: syntax, bad type, undefined type/identifier, bad expression, "
                         "every directive misuse, bad names, bad constants, duplicate names, union arity, extent, aggregation, deprecation) at a random "
                         "position of a random definition (target or dependency at depth 1-3), 20% none (@print delivery only); 6% of the namespaces "
-                        "contain string literals with raw line breaks (one statement on two physical lines)",
+                        "contain string literals with raw line breaks (one statement on two physical lines); 30% of the definitions carry a regulated fixed "
+                        "port-ID (file name prefix); faults of the definition's identity that are only detected when the finished composite is checked "
+                        "(unregulated / out-of-range fixed port-ID, reserved type name, full name longer than 255 characters incl. .Response) are placed "
+                        "like every other category, i.e. also in dependencies that are first reached through a reference (depth 1-3)",
         "technique": "Lean 4 theorems over the reader model with line numbers and the location-injection rules + differential correspondence on (path, line, @print deliveries) + independent oracle from the rendered text",
         "level_text": "For the modelled reader it is proved in Lean 4, for all documents and all line shapes, that a failed read reports either the untouched error of a referenced definition, or the own path without a line (finalize), or the own path with the number of a line that holds a statement (never a blank/comment line, also behind statements that span several physical lines); that an error raised while a lazily queued attribute is committed carries the line of the attribute's own statement; that at any dependency depth the definition at the reported path fails on its own with exactly the reported error; and that every @print of definitions without references is delivered exactly once with its own path and line. The statement that is false for the real code (@print in dependencies) is kept as *_statement with a decided counterexample; the model is tied to /repo by differential runs on generated faulty definitions.",
         "level_note": "Trusted: Lean kernel, standard axioms; the hand-written reader model is validated against the code by differential testing only; which Python statement raises first inside one DSDL statement is abstracted to a phase marker supplied by the generator.",
@@ -42,6 +45,11 @@ REG = {
                 "every letter case and pattern, duplicate names, union arity 0/1/2, void/utf8/byte placement, deprecated dependencies through "
                 "arrays, every @sealed/@extent/@union/@deprecated/--- misplacement and duplication, extent max-8..max+9, versions 0.0/255/256, "
                 "port-IDs at every range end +-1 with and without allow_unregulated, full-name length 254..257 incl. the .Response suffix); "
+                "15% of the cases are SEQUENCES read one after the other in one process (the verdict on each must be the fresh-process one): "
+                "the valid skeleton and its mutant in either order (optionally repeated), or a name and its look-alike in either order at type / "
+                "root namespace / nested namespace / attribute position - other letter case, reserved words in other cases, every non-ASCII "
+                "character that lower(), upper(), casefold(), NFKC, NFKD or int() turn into the ASCII character (U+212A, U+017F, U+0131, "
+                "fullwidth and mathematical letters and digits, non-ASCII decimal digits), homoglyphs, invisible / blank characters added; "
                 "the oracle re-evaluates the declarative rules on the mutated abstract definition",
         "technique": "Lean 4 theorems over an executable model of the constructor / builder checks (accept = ok iff the declarative rule conjunction, per-rule kernel lemmas for all values) + differential correspondence with read_namespace on rendered definitions + independent Python rule evaluator",
         "level_text": "For the modelled checks (type constructors, check_name, attribute constructors, aggregation checks, directive/marker handlers, composite/union/delimited/service constructors, port-ID ranges) it is proved in Lean 4 that a definition is accepted exactly when the conjunction of the named static rules of the property holds and is rejected (InvalidDefinitionError) otherwise, with per-rule lemmas for all widths, capacities, names (reserved words and patterns in any letter case), versions, port-IDs, statement orders; the model is tied to /repo on every run by differential runs on generated definitions with violations at every boundary.",
